@@ -189,11 +189,13 @@ def main():
     ops = gen_structured(rnd) if h % 2 else gen_history(rnd, rnd.choice([6, 10, 16, 24]))
     live = World(cfg)
     log = []
+    since = []      # the queries asked since the last mutation (the lifetime of the current solver)
     bad = False
     for op in ops:
       if op[0] != 'Q':
         live.apply(op)
         log.append(op)
+        since = []
         continue
       q = op[1]
       got = live.query(q)
@@ -206,6 +208,24 @@ def main():
         replica.apply(o)
       want = replica.query(q)
       if got != want or again != got:
+        # Is the difference explained by the queries asked before it in the SAME solver lifetime?  A fresh replica that is asked
+        # the same queries in the same order then agrees with the long-lived Program: query-order dependence inside one solver
+        # (known finding F19), not an answer that survived a mutation.
+        replica2 = World(cfg)
+        for o in log:
+          replica2.apply(o)
+        for q0 in since:
+          replica2.query(q0)
+        same_order = replica2.query(q)
+        if again == got and same_order == got and since:
+          if not any(v.get('kind') == 'query-order-dependent' for v in violations):
+            violations.append(dict(
+                kind='query-order-dependent',
+                what='query %r answers %r after the queries %r were asked, but %r when asked first on the same graph (no mutation in between; a fresh Program '
+                     'asked in the same order agrees with the long-lived one)' % (q, got, since, want),
+                history=[list(o) for o in ops[:ops.index(op) + 1]]))
+          since.append(q)
+          continue
         if len(violations) < 10:
           violations.append(dict(
               kind='stale-answer', what='query %r on the long-lived Program = %r (asked again: %r) but a replica rebuilt from the %d mutations answers %r' % (
@@ -213,8 +233,7 @@ def main():
               history=[list(map(lambda x: x, o)) for o in ops[:ops.index(op) + 1]]))
         bad = True
         break
-      log.append(op)  # queries stay in the live history only; the replica log records the position
-      log.pop()
+      since.append(q)
     if bad and len(violations) >= 10:
       break
   print(json.dumps(dict(
